@@ -1071,12 +1071,18 @@ func (p *Prog) textWriteSites() []textWriteSite {
 			ci := cs.(ssa.CallInstruction)
 			args := ci.Common().Args
 			s := textWriteSite{Fn: f, Call: ci, Kind: "other", Addr: origins(args[0]), Data: origins(args[1])}
+			pr := p.patchRoles()
 			for _, a := range s.Data {
-				if a.Kind == "field" && strings.HasSuffix(a.Name, ".jumpBytes") {
-					s.Kind = "install"
+				if a.Kind != "field" {
+					continue
 				}
-				if a.Kind == "field" && strings.HasSuffix(a.Name, ".originBytes") {
-					s.Kind = "restore"
+				if _, fv, ok := fieldRef(a.V); ok && fv != nil {
+					if fv == pr.GInstall || fv == pr.PInstall {
+						s.Kind = "install"
+					}
+					if fv == pr.GRestore || fv == pr.PRestore {
+						s.Kind = "restore"
+					}
 				}
 			}
 			out = append(out, s)
@@ -1189,4 +1195,104 @@ func allocPartsDepend(a *ssa.Alloc, walk func(ssa.Value) bool) bool {
 		}
 	}
 	return false
+}
+
+// originsDeep is origins that looks through static calls of module functions: a call atom is replaced by the origins of
+// the callee's corresponding result, and the callee's parameters are bound to the call's arguments (depth-bounded).
+func originsDeep(v ssa.Value, depth int) []Atom {
+	var out []Atom
+	for _, a := range origins(v) {
+		if depth <= 0 {
+			out = append(out, a)
+			continue
+		}
+		var call *ssa.Call
+		idx := 0
+		switch x := a.V.(type) {
+		case *ssa.Call:
+			call = x
+		case *ssa.Extract:
+			if c, ok := x.Tuple.(*ssa.Call); ok {
+				call, idx = c, x.Index
+			}
+		}
+		if a.Kind != "call" || call == nil {
+			out = append(out, a)
+			continue
+		}
+		cal := staticCallee(call.Common())
+		if cal == nil || cal.Blocks == nil || !strings.HasPrefix(pkgPathOf(cal), Mod) || relPkg(cal) == "internal/logger" {
+			out = append(out, a)
+			continue
+		}
+		expanded := false
+		for _, ret := range returnsOf(cal) {
+			rv := retResult(ret, idx)
+			if rv == nil {
+				continue
+			}
+			for _, b := range originsDeep(rv, depth-1) {
+				expanded = true
+				if b.Kind == "param" {
+					if pr, ok := b.V.(*ssa.Parameter); ok && pr.Parent() == cal {
+						for k, q := range cal.Params {
+							if q == pr && k < len(call.Call.Args) {
+								out = append(out, originsDeep(call.Call.Args[k], depth-1)...)
+							}
+						}
+						continue
+					}
+				}
+				out = append(out, b)
+			}
+		}
+		if !expanded {
+			out = append(out, a)
+		}
+	}
+	return out
+}
+
+// liftedSite is a call site viewed from a caller: the values of the callee's parameters as passed at that call.
+type liftedSite struct {
+	Fn    *ssa.Function
+	Instr ssa.Instruction
+	Vals  []ssa.Value // the tracked values (e.g. addr, data) expressed in Fn's terms
+}
+
+// liftSites lifts a site whose tracked values are parameters of its function to the callers of that function (bounded).
+func (p *Prog) liftSites(s liftedSite, depth int) []liftedSite {
+	out := []liftedSite{s}
+	if depth <= 0 {
+		return out
+	}
+	// which tracked values are plain parameters?
+	idx := make([]int, len(s.Vals))
+	any := false
+	for i, v := range s.Vals {
+		idx[i] = -1
+		if pr, ok := resolveLocal(v).(*ssa.Parameter); ok && pr.Parent() == s.Fn {
+			for k, q := range s.Fn.Params {
+				if q == pr {
+					idx[i] = k
+					any = true
+				}
+			}
+		}
+	}
+	if !any {
+		return out
+	}
+	for _, cs := range p.callersOf(s.Fn) {
+		vals := make([]ssa.Value, len(s.Vals))
+		for i := range s.Vals {
+			if idx[i] >= 0 && idx[i] < len(cs.Instr.Common().Args) {
+				vals[i] = cs.Instr.Common().Args[idx[i]]
+			} else {
+				vals[i] = nil // not expressible in the caller
+			}
+		}
+		out = append(out, p.liftSites(liftedSite{cs.Caller, cs.Instr, vals}, depth-1)...)
+	}
+	return out
 }
